@@ -1,0 +1,44 @@
+//! Verification hooks, compiled only with `--cfg kaj_rsass_verif`.
+//!
+//! Tracing is thread-local and off unless a harness installs a sink.
+
+use std::cell::RefCell;
+use std::sync::RwLock;
+
+thread_local! {
+    static SINK: RefCell<Option<Vec<String>>> = const { RefCell::new(None) };
+}
+
+static YIELD: RwLock<Option<fn(&'static str)>> = RwLock::new(None);
+
+/// Start collecting events on the current thread.
+pub fn install() {
+    SINK.with(|s| *s.borrow_mut() = Some(Vec::new()));
+}
+
+/// Stop collecting events on the current thread and return them.
+pub fn take() -> Vec<String> {
+    SINK.with(|s| s.borrow_mut().take().unwrap_or_default())
+}
+
+/// Record one event (a json object as text) if a sink is installed.
+pub fn emit(event: impl FnOnce() -> String) {
+    SINK.with(|s| {
+        if let Some(v) = s.borrow_mut().as_mut() {
+            v.push(event());
+        }
+    });
+}
+
+/// Install (or remove) a process-wide function called at yield points.
+pub fn set_yield(f: Option<fn(&'static str)>) {
+    *YIELD.write().unwrap() = f;
+}
+
+/// A point where a harness may perturb the thread schedule.
+pub fn yield_point(site: &'static str) {
+    let f = *YIELD.read().unwrap();
+    if let Some(f) = f {
+        f(site);
+    }
+}
